@@ -86,9 +86,21 @@ class Exec:
             raise Problem("%s->%s[%s] is outside the array of %d elements (line %s: %s)"
                           % (node.name, field, idx, n, e.get("l"), dtable.describe(e)[:80]))
 
-    def uint(self, v, e):
-        if isinstance(v, int) and v < 0:
-            raise Problem("unsigned arithmetic wraps below zero (value %d) at line %s: %s" % (v, e.get("l"), dtable.describe(e)[:80]))
+    UBITS = {"unsigned char": 8, "uint8_t": 8, "std::uint8_t": 8, "unsigned short": 16, "uint16_t": 16, "std::uint16_t": 16,
+             "unsigned int": 32, "unsigned": 32, "uint32_t": 32, "std::uint32_t": 32, "unsigned long": 64, "size_t": 64, "std::size_t": 64,
+             "unsigned long long": 64, "uint64_t": 64, "std::uint64_t": 64, "size_type": 64}
+
+    def ubits(self, ty):
+        t = (ty or "").replace("const ", "").replace("volatile ", "").strip()
+        return self.UBITS.get(t)
+
+    def uint(self, v, e, ty=None):
+        """a value of the type of e (or ty): unsigned types wrap as in C++ (well defined; whether the wrapped value does
+        harm shows at the access that uses it), other types keep the mathematical value"""
+        if isinstance(v, int) and not isinstance(v, bool):
+            b = self.ubits(ty if ty is not None else e.get("ty"))
+            if b is not None:
+                return v % (1 << b)
         return v
 
     # ---- lvalues -----------------------------------------------------------------
@@ -187,6 +199,13 @@ class Exec:
 
     # ---- expressions ---------------------------------------------------------------
     def ev(self, e):
+        v = self.ev_inner(e)
+        if isinstance(v, int) and not isinstance(v, bool) and e is not None and \
+                e["k"] in ("ImplicitCastExpr", "CStyleCastExpr", "CXXStaticCastExpr", "CXXFunctionalCastExpr"):
+            return self.uint(v, e)          # conversion to an unsigned type wraps
+        return v
+
+    def ev_inner(self, e):
         self.steps += 1
         if self.steps > 2000000:
             raise AnalysisBroken("abstract execution does not terminate")
@@ -229,7 +248,7 @@ class Exec:
                     self.store(l, new)
                     return old if e.get("postfix") else new
                 new = old + (1 if op == "++" else -1)
-                self.uint(new, e)
+                new = self.uint(new, e, kids(e)[0].get("ty"))
                 self.store(l, new)
                 return old if e.get("postfix") else new
             if op == "*" and strip_casts(kids(e)[0])["k"] == "This":
